@@ -1,7 +1,8 @@
 #!/bin/bash
-# tools_try_seed.sh <patch.diff> <PROP> [tier]   apply a seeded change to /repo, run the check, undo
+# tools/try_seed.sh <patch.diff> <PROP> [tier]   apply a seeded change to /repo, run the check, undo
 set -u
 P="$1"; PROP="$2"; TIER="${3:-quick}"
+if [ -n "$(git -C /repo status --porcelain)" ]; then echo "refusing: /repo has uncommitted changes"; exit 9; fi
 git -C /repo apply "$P" || { echo "patch does not apply"; exit 9; }
 /verif/check "$PROP" "$TIER"; rc=$?
 git -C /repo checkout -- . 
